@@ -193,9 +193,11 @@ fn diagnose(text: &str, layout: Layout, t: &T) -> Option<&'static str> {
   if matches!(layout, Layout::BlockComments | Layout::LineComments) && contains_function(t) {
     return Some("layout:comment-between-function-keyword-and-parenthesis");
   }
+  // the every-white-space layout is diagnosed on its ordinary-space form
+  let normalised: String = if matches!(layout, Layout::EveryWhiteSpace) { text.chars().map(|c| if crate::term::FEEL_WHITE_SPACE.contains(&c) { ' ' } else { c }).collect() } else { text.to_string() };
   // (4) NAME . NAME . NAME directly after `[` or `(` is taken for the start of an interval
   {
-    let plain = text.replace("/* c 1 + ( */", " ").replace("// c ) \"\n", " ");
+    let plain = normalised.replace("/* c 1 + ( */", " ").replace("// c ) \"\n", " ");
     let toks: Vec<&str> = plain.split_whitespace().collect();
     let compact: String = toks.join("");
     let bytes: Vec<char> = compact.chars().collect();
@@ -231,7 +233,7 @@ fn diagnose(text: &str, layout: Layout, t: &T) -> Option<&'static str> {
     return Some("between:and-token-inside-lower-bound");
   }
   // (2) a type name after `instance of` absorbs following name-like tokens (words, + - * / . ')
-  if let Some(rest) = after_instance_type(text) {
+  if let Some(rest) = after_instance_type(&normalised) {
     let r = rest.trim_start();
     if let Some(ch) = r.chars().next() {
       if ch.is_alphabetic() || matches!(ch, '+' | '-' | '*' | '/' | '.' | '\'' ) {
@@ -290,7 +292,7 @@ fn after_instance_type(text: &str) -> Option<&str> {
 
 fn check_tree(run: &Run, label: &str, t: &T, names: &BTreeSet<String>, counters: &Counters) {
   let expected = to_ast(t);
-  let layouts = [Layout::Spaced, Layout::Compact, Layout::Double, Layout::NewlinesTabs, Layout::BlockComments, Layout::LineComments];
+  let layouts = [Layout::Spaced, Layout::Compact, Layout::Double, Layout::NewlinesTabs, Layout::BlockComments, Layout::LineComments, Layout::EveryWhiteSpace];
   for mode in [Mode::Full, Mode::Minimal] {
     for layout in layouts {
       let text = render(t, mode, layout);
